@@ -1,4 +1,4 @@
-"""Generators for the inline-bytes families: strings, relocs_raw, relocs_build."""
+"""Generators for the inline-bytes families: strings, relocs_raw, relocs_rawat, relocs_hist, relocs_build."""
 import itertools, struct
 
 
@@ -68,6 +68,31 @@ def gen_strings(rng, tier):
     return cases
 
 
+def gen_strings_hist(rng, tier):
+    """call histories over {next, nth k, size_hint, count, clone} on the enumerator (C18 / C20): the
+    model runs `Strings.runOps`, the specification the same calls on the list of the qualifying runs"""
+    cases = []
+    vec = bytes.fromhex("1f432d535452494e4700808141414141414141414141ff")        # the repository's test vector
+    core = ["next", "nth:1", "count", "clone"]
+    for a in core:
+        for b in core:
+            for c in core:
+                cases.append(["strings_hist 3 3 0 0x1000 %s %s" % (hx(vec + b"\x00ab\x00abc\x00abcd\x01xyz"), ",".join([a, b, c, "hint", "next", "next", "count"]))])
+    n = 300 if tier == "quick" else 10000
+    for _ in range(n):
+        ln = rng.choice([0, 1, 2, 5, 8, 16, 33, 64]) + rng.randrange(0, 8)
+        bs = bytearray()
+        while len(bs) < ln:
+            bs += bytes(rng.choice([0x41, 0x61, 0x20, 0x7E, 0x09, 0x30]) for _ in range(rng.randrange(0, 7)))
+            bs.append(rng.choice([0, 0, 0x7F, 0x80, 0x1F, 0xFF, 0x01]))
+        bs = bytes(bs[:ln])
+        ml, mln = rng.choice([1, 1, 2, 3, 4, 0]), rng.choice([1, 1, 2, 3, 0])
+        base = rng.choice([0, 0x1000, 0xFFFFFFFF, 0xFFFFFFF0, rng.randrange(1 << 32)])
+        k = rng.choice([1, 2, 4, 8, 12])
+        cases.append(["strings_hist %d %d %d 0x%x %s %s" % (ml, mln, rng.randrange(2), base, hx(bs), ",".join(rng.choice(HIST_OPS) for _ in range(k)))])
+    return cases
+
+
 def _block(va, size, words, pad=b""):
     return struct.pack("<II", va & 0xFFFFFFFF, size & 0xFFFFFFFF) + b"".join(struct.pack("<H", w & 0xFFFF) for w in words) + pad
 
@@ -103,6 +128,84 @@ def gen_relocs_raw(rng, tier):
         elif cut < 0.3:
             data += bytes(rng.randrange(256) for _ in range(rng.randrange(1, 9)))
         cases.append(["relocs_raw %s" % hx(data)])
+    # well-formed directories (the hypothesis of C14_blocks_partition / C14_flat_eq_spec): here the
+    # reported entries are judged by the format-side decoder
+    for _ in range(n // 4):
+        cases.append(["relocs_raw %s" % hx(_rand_dir(rng, RAW_SIZES, wf=True))])
+    return cases
+
+
+def _rand_dir(rng, sizes, wf=None):
+    """a random directory: mostly well-formed blocks, some with a wrong SizeOfBlock, sometimes cut or padded;
+    wf=True: every block well formed (SizeOfBlock a multiple of four, exact), at most a tail shorter than a header"""
+    if wf is None:
+        wf = rng.random() < 0.35
+    data = b""
+    for _b in range(rng.randrange(1 if wf else 0, 6)):
+        nw = rng.choice([0, 1, 2, 3, 4, 5, 8])
+        words = [rng.choice([0, 0x3000, 0xA000, 0x1000, 0xF000]) | rng.choice([0, 1, 0xFFF, 0x800, rng.randrange(4096)]) for _w in range(nw)]
+        if wf and nw % 2:
+            words.append(rng.choice([0, 0, 0x0123, 0x3004]))      # pad to a dword boundary (not always with a padding entry)
+            nw += 1
+        true_size = 8 + 2 * nw
+        r = rng.random()
+        if r < 0.7 or wf:
+            size = true_size
+        elif r < 0.85:
+            size = rng.choice(sizes)
+        else:
+            size = max(0, true_size + rng.choice([-9, -8, -3, -2, -1, 1, 2, 3, 4, 6]))
+        va = rng.choice([0x1000, 0x2000, 0xFFFFF000, 0xFFFFFFFF, 0, rng.randrange(1 << 32)])
+        data += _block(va, size, words)
+    cut = rng.random()
+    if wf:
+        if cut < 0.3:
+            data += bytes(rng.randrange(256) for _ in range(rng.randrange(1, 8)))
+    elif cut < 0.15 and data:
+        data = data[:rng.randrange(len(data) + 1)]
+    elif cut < 0.25:
+        data += bytes(rng.randrange(256) for _ in range(rng.randrange(1, 9)))
+    return data
+
+
+RAW_SIZES = [0, 1, 2, 3, 4, 5, 7, 8, 9, 10, 11, 12, 13, 14, 15, 16, 0xFFFFFFFF, 0xFFFFFFFE, 0xFFFFFFFD, 0xFFFFFFFC, 0xFFFFFFF9, 0x80000000, 0x10000]
+ALIGNS = [0, 1, 2, 4, 6, 8, 12]
+
+
+def gen_relocs_rawat(rng, tier):
+    """the directory at every residue class of its address: `parse` answers Misaligned unless the
+    address is a multiple of four (the 4-aligned placements must answer exactly like relocs_raw)"""
+    cases = []
+    fixed = [b"", _block(0x1000, 12, [0x3010, 0]), _block(0x1000, 16, [0x3010, 0x3020, 0xA030, 0]) + _block(0x2000, 12, [0x3001, 0]),
+             _block(0x1000, 10, [0x3010, 0xAABB]) + _block(0x2000, 8, []), _block(0x3000, 0xFFFFFFFF, [0x3010])[:9], bytes(7)]
+    for data in fixed:
+        for al in ALIGNS:
+            cases.append(["relocs_rawat %d %s" % (al, hx(data))])
+    n = 200 if tier == "quick" else 8000
+    for _ in range(n):
+        data = _rand_dir(rng, RAW_SIZES)
+        cases.append(["relocs_rawat %d %s" % (rng.choice(ALIGNS), hx(data))])
+    return cases
+
+
+HIST_OPS = ["next", "next", "nth:0", "nth:1", "nth:2", "nth:5", "hint", "count", "clone", "nth:0xffffffffffffffff", "nth:0x7fffffffffffffff"]
+
+
+def gen_relocs_hist(rng, tier):
+    """call histories over {next, nth k, size_hint, count, clone} on the block iterator (C18): the
+    model runs `Relocs.runOps`, the specification the same calls on the plain list of the blocks"""
+    cases = []
+    core = ["next", "nth:1", "count", "clone"]
+    two = _block(0x1000, 16, [0x3010, 0x3020, 0xA030, 0]) + _block(0x2000, 12, [0x3001, 0]) + _block(0x3000, 8, []) + _block(0x4000, 12, [0x3004, 0x3008])
+    for a in core:
+        for b in core:
+            for c in core:
+                cases.append(["relocs_hist %s %s" % (hx(two), ",".join([a, b, c, "hint", "next", "next", "count"]))])
+    n = 300 if tier == "quick" else 10000
+    for _ in range(n):
+        data = _rand_dir(rng, RAW_SIZES)
+        k = rng.choice([1, 2, 4, 8, 12])
+        cases.append(["relocs_hist %s %s" % (hx(data), ",".join(rng.choice(HIST_OPS) for _ in range(k)))])
     return cases
 
 
